@@ -49,6 +49,25 @@ func (t *Translator) TransformStreamingResponse(ctx context.Context, openaiStrea
 	streamErr := t.transformStreamingSync(ctx, openaiStream, w, rc, state)
 
 	if streamErr != nil {
+		if state.messageStartSent {
+			// the event stream has begun: say that it broke, a client must not take what it
+			// has for the whole message
+			if err := t.writeEvent(w, "error", map[string]interface{}{
+				"type": "error",
+				"error": map[string]interface{}{
+					"type":    "api_error",
+					"message": "upstream response ended unexpectedly",
+				},
+			}); err == nil {
+				_ = rc.Flush()
+			}
+		} else {
+			// nothing was written yet: take the stream headers back so that the caller can
+			// still answer with an error status
+			w.Header().Del(constants.HeaderContentType)
+			w.Header().Del("Cache-Control")
+			w.Header().Del("Connection")
+		}
 		return streamErr
 	}
 
